@@ -2,7 +2,7 @@
 from .. import coqenc as E
 from ..passes import run_passes
 from ..runner import jval
-from ..valgen import Gen, copy_value
+from ..valgen import Gen, copy_value, twin_all
 from ..condgen import CondGen
 from ..rulegen import RuleGen
 from ..ruleterms import RuleT, obs_rule_test
@@ -12,7 +12,7 @@ from . import c05
 
 PROP = "C17"
 IMPORTS = c05.IMPORTS
-THEOREMS = ['C17_subst', 'C17_rule_verdict', 'C17_unresolvable_fails', 'C17_resolution_caught']
+THEOREMS = ['C17_subst', 'C17_rule_verdict', 'C17_rule_verdict_with_casts', 'C17_unresolvable_fails', 'C17_resolution_caught']
 FACT_LEMMAS = ['C17Proof.C17_resolution_errors_caught']
 DEPENDS = ['Py.v', 'Lang.v', 'Defs.v', 'Cond.v', 'Dsl.v', 'Check.v', 'DocSem.v', 'Inst.v', 'Gen/TablesGen.v', 'Gen/CallablesGen.v', 'Gen/SpecGen.v', 'Path.v', 'Cast.v', 'Str.v', 'SpecDefs.v', 'RuleDefs.v', 'Rule.v', 'Spec.v', 'SpecIO.v', 'Descr.v', 'Eq.v', 'RunSpec.v', 'SpecSpell.v', 'Proofs/Tie.v', 'Proofs/PyFacts.v', 'Proofs/C01Proof.v', 'Proofs/C02Proof.v', 'Proofs/RuleProof.v', 'Proofs/C03Proof.v', 'Proofs/C04Proof.v', 'RuleSpec.v', 'RuleTerms.v', 'PathSpec.v', 'RunRule.v', 'Run.v', 'C17Defs.v', 'Proofs/C17Proof.v', 'Properties/C17.v']
 ASSUMPTIONS = ["Layer P models CPython's operators (pysem)"]
@@ -57,6 +57,24 @@ def run(tier, seed, model_ok, spec_ok, replay=None):
         else:
             out = E.run_outcome(lambda: c05.impl_rule_test(rt, copy_value(doc)))
             nested_n += 1
+        if out[0] == "ok" and g.r.random() < 0.5:
+            # ONE rule object judging first an == but differently typed document (1 / True / 1.0), then this one: what a path
+            # argument means is decided by the document being validated, not by an earlier one
+            ndirect += 1
+
+            def reused():
+                r = rt.build()
+                for d0 in (g.document(2, 3), twin_all(g, doc)):
+                    try:
+                        r.test(d0)
+                    except Exception:
+                        pass
+                t = r.test(copy_value(doc))
+                return (obs_rule_test(t), t.data.get_original())
+            o3 = E.run_outcome(reused)
+            if o3 != out:
+                direct.append({"kind": "direct", "what": "a rule that has judged other documents before judges this one differently",
+                               "rule": rt.descr()[:400], "doc": jval(doc), "fresh": repr(out)[:300], "reused": repr(o3)[:300]})
         lit = substitute(rt.cond, doc)
         if lit is not None and out[0] == "ok":
             o2 = E.run_outcome(lambda: c05.impl_rule_test(RuleT(rt.path, lit, []), copy_value(doc)))
